@@ -1,6 +1,6 @@
 // c04_driver — C04: run Validator::validateModel on models built through the public API.
 //
-// usage: c04_driver run|describe|names <cases>
+// usage: c04_driver run|describe|names|seq <cases>
 //   cases: one API script per line (commands separated by ';', see common/script.hpp); the model to validate is
 //          the one in slot 0.
 //   run:      one line per case:
@@ -10,6 +10,10 @@
 //             "W3C MathML DTD error: "; that pass is assumed, not modelled), xml = number of issues whose rule is
 //             XML (libxml2 parse errors; not modelled); err = number of script lines answered ERR(..)/THROW(..).
 //   describe: the same followed by " | <rule int>:<description hex>" for every issue (replays only).
+//   seq:      ONE Validator instance validates a sequence: the case is "step|step|...", a step is "@<slot>;<script>"; the
+//             steps run in ONE interpreter (so a later step can rebuild the model object of an earlier one in place) and
+//             after each step validator->validateModel(model in <slot>) is called on the SAME validator; the output is
+//             the `run` text of every step joined by " || ".
 //   names:    cases are hex-encoded byte strings; one line "<isValidXmlName> <isCellmlIdentifier>" (0/1) per string
 //             (the two functions are defined in validator.cpp without a header: re-declared here, static link).
 // A crash / hang of the library becomes CRASH(sig) / TIMEOUT (common/forkrun.hpp).
@@ -30,39 +34,16 @@ bool isCellmlIdentifier(const std::string &name);
 
 using namespace verif;
 
+static bool gDescribe = false;
+
 static std::string namesCase(const std::string &hex)
 {
     std::string s = hexdecode(hex == "-" ? std::string() : hex);
     return std::string(libcellml::isValidXmlName(s) ? "1" : "0") + " " + (libcellml::isCellmlIdentifier(s) ? "1" : "0");
 }
 
-static bool gDescribe = false;
-
-static std::string runCase(const std::string &script)
+static std::string report(const libcellml::ValidatorPtr &v, size_t errs)
 {
-    Interp in;
-    size_t errs = 0;
-    for (const auto &cmd : splitws(script, ';')) {
-        bool blank = true;
-        for (char c : cmd) {
-            if (c != ' ' && c != '\t' && c != '\r') {
-                blank = false;
-            }
-        }
-        if (blank) {
-            continue;
-        }
-        auto r = in.exec(cmd);
-        if (r.rfind("ERR(", 0) == 0 || r.rfind("THROW(", 0) == 0) {
-            ++errs;
-        }
-    }
-    auto m = in.model(0);
-    if (m == nullptr) {
-        return "nomodel";
-    }
-    auto v = libcellml::Validator::create();
-    v->validateModel(m);
     size_t dtd = 0;
     size_t xml = 0;
     static const std::string dtdPrefix = "W3C MathML DTD error: ";
@@ -84,6 +65,66 @@ static std::string runCase(const std::string &script)
            + " err=" + std::to_string(errs) + tail;
 }
 
+static size_t execAll(Interp &in, const std::string &script)
+{
+    size_t errs = 0;
+    for (const auto &cmd : splitws(script, ';')) {
+        bool blank = true;
+        for (char c : cmd) {
+            if (c != ' ' && c != '\t' && c != '\r') {
+                blank = false;
+            }
+        }
+        if (blank) {
+            continue;
+        }
+        auto r = in.exec(cmd);
+        if (r.rfind("ERR(", 0) == 0 || r.rfind("THROW(", 0) == 0) {
+            ++errs;
+        }
+    }
+    return errs;
+}
+
+static std::string seqCase(const std::string &text)
+{
+    Interp in;
+    auto v = libcellml::Validator::create();
+    std::string out;
+    for (const auto &step : splitws(text, '|')) {
+        if (step.empty() || step[0] != '@') {
+            return "badstep";
+        }
+        auto semi = step.find(';');
+        size_t slot = size_t(std::stoul(step.substr(1, semi - 1)));
+        size_t errs = execAll(in, semi == std::string::npos ? std::string() : step.substr(semi + 1));
+        auto m = in.model(slot);
+        if (!out.empty()) {
+            out += " || ";
+        }
+        if (m == nullptr) {
+            out += "nomodel";
+            continue;
+        }
+        v->validateModel(m);
+        out += report(v, errs);
+    }
+    return out;
+}
+
+static std::string runCase(const std::string &script)
+{
+    Interp in;
+    size_t errs = execAll(in, script);
+    auto m = in.model(0);
+    if (m == nullptr) {
+        return "nomodel";
+    }
+    auto v = libcellml::Validator::create();
+    v->validateModel(m);
+    return report(v, errs);
+}
+
 int main(int argc, char **argv)
 {
     if (argc < 3) {
@@ -94,6 +135,10 @@ int main(int argc, char **argv)
     auto cases = readLines(argv[2]);
     if (std::string(argv[1]) == "names") {
         return runCases(cases, namesCase, 30);
+    }
+    if (std::string(argv[1]) == "seq" || std::string(argv[1]) == "seqdescribe") {
+        gDescribe = std::string(argv[1]) == "seqdescribe";
+        return runCases(cases, seqCase, 60);
     }
     return runCases(cases, runCase, 30);
 }
